@@ -84,6 +84,23 @@ def main():
 
     from sim import reset
 
+    # Reach measurement (tools/reach.py only; never set by a registered command): line
+    # coverage of the tree under test by the generated workload, via sys.monitoring so
+    # that it does not collide with the settrace-based fault injection.
+    cov = None
+    covdir = os.environ.get("VERIF_COVERAGE")
+    if covdir:
+        import coverage
+
+        os.environ["COVERAGE_CORE"] = "sysmon"
+        cov = coverage.Coverage(
+            data_file=os.path.join(covdir, f"cov.{os.getpid()}"),
+            include=[os.path.join(os.path.realpath(REPO), "ufl", "*")],
+            config_file=False,
+        )
+        cov.start()
+    nserved = 0
+
     gc.collect()
     base = reset.capture()
     gc.collect()
@@ -107,6 +124,9 @@ def main():
             # search mode: no fork; global UFL state is put back to zygote start
             reset.restore(base)
             serve(ops, nodeext, inproc=True)
+            nserved += 1
+            if cov is not None and nserved % 2 == 0:
+                cov.save()
         elif z == "quit":
             os._exit(0)
         elif z == "ping":
